@@ -68,6 +68,8 @@ class E:
             return L(0).notnull()
         if k == "in":
             return L(0).isin([x.lib(env) for x in c[1]])
+        if k == "inraw":      # the list holds plain Python constants (None included), as a user writes it
+            return L(0).notin(list(c[1])) if c[2] else L(0).isin(list(c[1]))
         if k == "between":
             return L(0).between(L(1), L(2))
         if k == "like":
@@ -120,6 +122,9 @@ class E:
             return "(NOT (%s IS NULL))" % S(0)
         if k == "in":
             return "(%s IN (%s))" % (S(0), ", ".join(x.plain(env) for x in c[1]))
+        if k == "inraw":
+            lits = ", ".join("NULL" if v is None else ("(%d)" % v if isinstance(v, int) else "'%s'" % v.replace("'", "''")) for v in c[1])
+            return "(%s%s IN (%s))" % (S(0), " NOT" if c[2] else "", lits)
         if k == "between":
             return "(%s BETWEEN %s AND %s)" % (S(0), S(1), S(2))
         if k == "like":
@@ -270,8 +275,10 @@ def gen_crit(r, srcs, d):
         return E("not", gen_crit(r, srcs, d - 1))
     if k < 0.73:
         return E(r.choice(["isnull", "notnull"]), gen_expr(r, srcs, d - 1, None))
-    if k < 0.83:
+    if k < 0.78:
         return E("in", gen_expr(r, srcs, d - 1, True), [E("int", x) for x in r.sample([0, 1, 2, 3, 5, 10], r.randint(1, 3))])
+    if k < 0.83:
+        return E("inraw", gen_expr(r, srcs, d - 1, True), r.sample([0, 1, 2, 3, 5, None, None], r.randint(1, 3)), r.random() < 0.5)
     if k < 0.92:
         return E("between", gen_expr(r, srcs, d - 1, True), E("int", r.choice([0, 1])), E("int", r.choice([2, 3, 5])))
     return E("like", E("col", r.choice(srcs), "c"), r.choice(["x%", "%", "_", "it%"]))
@@ -446,6 +453,34 @@ def shape_programs():
         s.sources = [("t", P.Table("t"), None)]
         s.items, s.groupby, s.distinct = items, keys, True
         out.append(("shape:distinct-groupby", s))
+    # IN lists of plain Python constants with None among them: x NOT IN (1, NULL) is never true, x IN (2, NULL) is NULL rather than false
+    for lst in ([1, None], [None], [2, None, 3], [0, 1]):
+        for neg in (False, True):
+            e = E("inraw", C("a"), lst, neg)
+            for wrap in (lambda x: x, lambda x: E("not", x)):
+                s = Sel()
+                s.sources = [("t", P.Table("t"), None)]
+                s.items = [(C("a"), "a0"), (C("b"), "b0"), (wrap(e), "v")]
+                s.where = E("or", wrap(e), E("isnull", C("b")))
+                s.orderby = [(C("a"), False), (C("b"), False)]
+                out.append(("shape:in-list-with-none", s))
+                s2 = Sel()
+                s2.sources = [("t", P.Table("t"), None)]
+                s2.items = [(C("a"), "a0"), (C("b"), "b0")]
+                s2.where = wrap(e)
+                out.append(("shape:in-list-with-none", s2))
+    # chains of three operands mixing the compound operators (SQLite evaluates them left to right and rejects a parenthesised operand)
+    ops = ["union", "union_all", "intersect", "except_of"]
+    for o1 in ops:
+        for o2 in ops:
+            def one(col):
+                x = Sel()
+                x.sources = [("t", P.Table("t"), None)]
+                x.items = [(C(col), "v")]
+                return x
+            s = one("a")
+            s.setops = [(o1, one("b")), (o2, one("a"))]
+            out.append(("shape:setop-chain", s))
     # ORDER BY with several keys and directions
     for dirs in ((True, True), (True, False), (False, True)):
         s = Sel()
